@@ -7,8 +7,8 @@ An item mirrors Spec/Items.v:
 from .common import C, txt
 
 MOVES = ["w", "e", "b", "l", "h", "$", "0", "W", "E", "fa", "tb", "j", "k", "gg", "G", "^", "ge", "2w", "3l"]
-EDITS = ["x", "dw", "iX<esc>", "a-<esc>", "rZ", "~", "D", "yiw", "P", "p", "dd", "cwnew<esc>", "ohi<esc>", "J", "u", "vey", "guw", "gUiw"]
-CUTS = ["e", "w", "$", "iw", "vee", "b", "3l", "E", "fa", "vi)", "va)", "0", "vaw", "f\\\\", "t\\\\"]
+EDITS = ["x", "dw", "iX<esc>", "a-<esc>", "rZ", "~", "D", "yiw", "P", "p", "dd", "cwnew<esc>", "ohi<esc>", "J", "u", "vey", "guw", "gUiw", '\\"ayiw', '\\"ap', '\\"Ayw']
+CUTS = ["e", "w", "$", "iw", "vee", "b", "3l", "E", "fa", "vi)", "va)", "0", "vaw", "f\\\\", "t\\\\", 'vi\\"', 'f\\"', '\\"ayiw']
 PATS = ["a", "o", "foo", "b.r", "\\d", "x|y", "e$", "^f", "z", "qqq", "^$"]
 TEXTS = [
     "foo bar baz\nalpha beta gamma\nfoo2 bar2\n",
